@@ -4,6 +4,7 @@ nesting budget and the headline theorem `blockParse_no_noProgress`.
 -/
 import MistuneProofs.C01Progress
 import MistuneProofs.C01ProgressPlugins
+import MistuneProofs.C01ProgressDirectives
 import Mistune.Model.BlockDispatch
 import Mistune.Generated.Regex
 namespace Mistune
@@ -587,6 +588,9 @@ theorem parseMethod_progress (cfg : MdCfg) (hf : CfgFacts cfg) : ∀ fuel, PMPro
       | exact parseAtxHeading_good cfg _ mt st hpre
       | exact parseSetexHeading_good cfg hf _ ih _ mt st hpre
       | exact parseFencedCode_good cfg _ mt st hpre
+      | (split                                                                  -- `fenced_code` with / without a default-marker `FencedDirective`
+         · exact parseFencedCodeDir_good cfg hf _ ih _ mt st hpre
+         · exact parseFencedCode_good cfg _ mt st hpre)
       | exact parseIndentCode_good cfg hf _ mt st hpre
       | exact parseThematicBreak_good _ mt st hpre
       | exact parseRefLink_good cfg hf _ mt st hpre
@@ -605,6 +609,8 @@ theorem parseMethod_progress (cfg : MdCfg) (hf : CfgFacts cfg) : ∀ fuel, PMPro
       | exact Good.guard (c := registered cfg "block_math") (fun _ => parseBlockMath_good cfg _ mt st hpre)
       | exact Good.guard (c := registered cfg "paragraph") (fun _ => parseParagraph_good _ mt st hpre)
       | exact Good.guard (fun _ => parseRefAbbr_good cfg _ mt st hpre)
+      | exact Good.guard (c := registered cfg "rst_directive") (fun _ => parseRstDirective_good cfg hf _ ih _ mt st hpre)
+      | exact Good.guard (c := registered cfg "fenced_directive") (fun _ => parseFencedDirective_good cfg hf _ ih _ mt st hpre)
 
 /-- `BlockParser.parse` on any state built by `process`, with any rule list and any nesting budget, never
 returns `.noProgress` -/
